@@ -30,9 +30,10 @@ import (
 // ProcSpec scripts one fake processor. Filter / Err list the records (s,k) the
 // processor filters out / fails. Workers > 1 makes v1 wrap it in a ParallelNode.
 type ProcSpec struct {
-	Filter  [][2]int `json:"filter"`
-	Err     [][2]int `json:"err"`
-	Workers int      `json:"workers"`
+	Filter    [][2]int `json:"filter"`
+	Err       [][2]int `json:"err"`
+	Workers   int      `json:"workers"`
+	Transform bool     `json:"transform"` // returns a NEW record (payload rewritten) for every record it passes on
 }
 
 // SrcSpec scripts one source: the sizes of the batches its Read calls return,
@@ -42,6 +43,7 @@ type SrcSpec struct {
 	Procs    []ProcSpec `json:"procs"`
 	EOF      bool       `json:"eof"`
 	SlowRead bool       `json:"slowRead"` // every Read after the first is released only when nothing else is parked
+	DeferAck bool       `json:"deferAck"` // Source.Ack returns at once and keeps the slice (like connector.Source); delivered later, in call order
 	SlowAck  bool       `json:"slowAck"`  // Source.Ack is released only when nothing else is parked (most of the time)
 }
 
@@ -483,6 +485,19 @@ type run struct {
 	mu        sync.Mutex
 	exhausted map[int]bool
 	dlqCount  int
+
+	pendingAcks sync.WaitGroup // deferred source acks not yet delivered
+}
+
+// flushAcks waits (bounded) for the deferred source acks to be delivered; called after
+// FreeRun, when every gate is open.
+func (x *run) flushAcks() {
+	ch := make(chan struct{})
+	go func() { x.pendingAcks.Wait(); close(ch) }()
+	select {
+	case <-ch:
+	case <-time.After(time.Second):
+	}
 }
 
 var runSeq atomic.Int64
